@@ -11,6 +11,7 @@ the check produces; the full statement `validate (serialize t c) = []` for a mod
 -/
 import Sqfs.Proofs.DirWriter
 import Sqfs.Proofs.MetaWriter
+import Sqfs.Proofs.MetaWriterKeep
 import Sqfs.Proofs.IdTable
 import Sqfs.Proofs.Finish
 import Sqfs.Proofs.Numbering
@@ -18,6 +19,14 @@ import Sqfs.Proofs.C03FsDir
 import Sqfs.Proofs.C03Inode
 namespace Sqfs.C03
 open Sqfs.Consts
+
+/-! ### codecs used by the examples that follow the theorems -/
+
+/-- a codec that never shrinks anything -/
+def toyCodec0 : Sqfs.MetaWriter.Codec := fun _ => none
+
+/-- a codec meeting the contract: "drop the last byte of anything longer than 3 bytes" -/
+def toyCodec : Sqfs.MetaWriter.Codec := fun x => if x.length > 3 then some x.dropLast else none
 
 /-! ## directory writer -/
 section Dir
@@ -173,6 +182,24 @@ theorem dir_index_points_at_headers (cmp : MetaWriter.Codec) (st : MetaWriter.St
     have : metaBlockSize = 8192 := rfl
     rw [this]
     omega
+
+set_option maxRecDepth 100000 in
+/-- instance (all hypotheses discharged) on a meta writer that **already holds data**: 100 bytes appended before (`WF` from
+`foldl_append_wf`), three entries in two inode blocks → two headers; `k = 1`: the second index entry is `(30, 0, "c")`, made
+from the second header, which sits 30 listing bytes in; `fin` = the state right after `sqfs_dir_writer_end` -/
+example :
+    let st0 : MetaWriter.St := [List.replicate 100 (1 : UInt8)].foldl (MetaWriter.append toyCodec) {}
+    let ents : List DEnt := [⟨0x10020, 5, 2, [97]⟩, ⟨0x10040, 6, 2, [98]⟩, ⟨0x20000, 7, 2, [99]⟩]
+    ∃ r first tl, (dirEndM toyCodec st0 ents).1[1]? = some r ∧ r.ents = first :: tl ∧
+      ((30, 0, [99]) : Nat × Nat × Bytes) = (r.index % 4294967296, r.block % 4294967296, first.name) ∧
+      r.block = MetaWriter.outBytes ((dirEndM toyCodec st0 ents).2.out.take (((MetaWriter.stream st0).length + r.index) / 8192)) ∧
+      ((MetaWriter.stream st0).length + r.index) % 8192 = ((dirRefOf st0) % 65536 + r.index) % 8192 := by
+  intro st0 ents
+  have hwf : MetaWriter.WF toyCodec st0 := (MetaWriter.foldl_append_wf toyCodec _ {} (MetaWriter.wf_init _)).1
+  obtain ⟨r, first, tl, h1, h2, h3, _, _, h6, h7⟩ :=
+    dir_index_points_at_headers toyCodec st0 hwf ents (dirEndM toyCodec st0 ents).2 (MetaWriter.Ext.refl _) 0 0 1 1
+      (30, 0, [99]) (by decide)
+  exact ⟨r, first, tl, h1, h2, h3, h6, h7⟩
 
 /--
 Export table (`add_export_table_entry` from every accepted `add_entry`, then the root in
@@ -352,26 +379,62 @@ theorem write_table_locations (cmp : Codec) (base : Nat) (data : Bytes) :
   writeTableM_spec cmp base data
 
 /--
-A meta writer created with `SQFS_META_WRITER_KEEP_IN_MEMORY` (the directory table): nothing reaches the file before
-`sqfs_meta_write_write_to_file`; afterwards the file holds exactly the blocks, in order, that the same appends give
-on a writer without the flag (so block offsets reported by `get_position` while the data was still in memory are
-the offsets the blocks end up at, relative to where the table starts), and the in-memory list is empty.
+The meta writer **with its flag word** (`FSt`: `sqfs_meta_writer_flush` branches on `SQFS_META_WRITER_KEEP_IN_MEMORY` —
+link the block into `m->list`, or `write_block` it; meta_writer.c:134-144), for every codec, every sequence of appends
+and every flag word `fl`, compared with the flag-less machine `St` the other theorems are stated for:
+
+* the position `sqfs_meta_writer_get_position` reports after the appends, and after the final flush, is the position of
+  the flag-less writer (so the block offsets handed out while the data was still in memory are the offsets the blocks
+  end up at, relative to where the table starts);
+* with `KEEP_IN_MEMORY` (the directory table): nothing reaches the file before `sqfs_meta_write_write_to_file`, the list
+  holds exactly the blocks `run` produces, in order; afterwards the file holds exactly these blocks and the list is empty;
+* without the flag: every block is in the file as soon as it is flushed, the list stays empty, and
+  `sqfs_meta_write_write_to_file` changes nothing.
+
+(`FSt.flush` is written out branch by branch as in the C code; the proof is a simulation, `FSim` in
+`Proofs/MetaWriterKeep.lean`.  The driver's `metak` / `dirx` operations run `FSt` against the real writer.)
 -/
-theorem keep_in_memory_same_blocks (cmp : Codec) (chunks : List Bytes) :
-    ((chunks.foldl (Keep.append cmp) {}).flush cmp).file = [] ∧
-    ((chunks.foldl (Keep.append cmp) {}).flush cmp).writeToFile.file = (run cmp chunks).out ∧
-    ((chunks.foldl (Keep.append cmp) {}).flush cmp).writeToFile.st.out = [] ∧
-    (chunks.foldl (Keep.append cmp) {}).st = chunks.foldl (append cmp) {} := by
-  have h : ∀ (cs : List Bytes) (k : Keep), (cs.foldl (Keep.append cmp) k).st = cs.foldl (append cmp) k.st ∧
-      (cs.foldl (Keep.append cmp) k).file = k.file := by
-    intro cs
-    induction cs with
-    | nil => intro k; exact ⟨rfl, rfl⟩
-    | cons c cs ih => intro k; simp only [List.foldl_cons]; exact ih (Keep.append cmp k c)
-  obtain ⟨h1, h2⟩ := h chunks {}
-  refine ⟨by simp [Keep.flush, h2], ?_, rfl, h1⟩
-  simp only [Keep.writeToFile, Keep.flush, h2, h1, run]
-  simp
+theorem keep_in_memory_same_blocks (cmp : Codec) (chunks : List Bytes) (fl : Nat) :
+    let w := chunks.foldl (FSt.append cmp) { flags := fl }
+    let fin := w.flush cmp
+    w.position = position (chunks.foldl (append cmp) {}) ∧
+    fin.position = position (run cmp chunks) ∧
+    (hasFlag fl metaWriterKeepInMemory = true →
+      fin.file = [] ∧ fin.list = (run cmp chunks).out ∧
+      fin.writeToFile.file = (run cmp chunks).out ∧ fin.writeToFile.list = []) ∧
+    (hasFlag fl metaWriterKeepInMemory = false →
+      fin.file = (run cmp chunks).out ∧ fin.list = [] ∧ fin.writeToFile.file = fin.file ∧ fin.writeToFile.list = []) := by
+  intro w fin
+  have hw : FSim w (chunks.foldl (append cmp) {}) := FSim.foldl chunks (FSim.init fl)
+  have hfin : FSim fin (run cmp chunks) := hw.flush
+  have hflags : fin.flags = fl := by
+    show (w.flush cmp).flags = fl
+    rw [FSt.flush_flags]
+    exact FSt.foldl_append_flags cmp chunks _
+  obtain ⟨a1, a2, _⟩ := hw
+  obtain ⟨b1, b2, b3⟩ := hfin
+  rw [hflags] at b3
+  refine ⟨by simp only [FSt.position, position, a1, a2], by simp only [FSt.position, position, b1, b2], ?_, ?_⟩
+  · intro hk
+    rw [if_pos hk] at b3
+    exact ⟨b3.2, b3.1, by simp only [FSt.writeToFile, b3.1, b3.2, List.nil_append], rfl⟩
+  · intro hk
+    rw [if_neg (by simp [hk])] at b3
+    exact ⟨b3.1, b3.2, by simp only [FSt.writeToFile, b3.2, List.append_nil], rfl⟩
+
+/-- instance, both branches: 9000 + 2 bytes — more than one metadata block — through a shrinking codec ("drop the last
+byte", `toyCodec` below); with `KEEP_IN_MEMORY` the file is empty before `write_to_file`, without it the list is never used -/
+example :
+    let c : Codec := fun x => if x.length > 3 then some x.dropLast else none
+    let ch : List Bytes := [List.replicate 9000 7, [1, 2]]
+    ((ch.foldl (FSt.append c) { flags := metaWriterKeepInMemory }).flush c).file = [] ∧
+    ((ch.foldl (FSt.append c) { flags := metaWriterKeepInMemory }).flush c).writeToFile.file = (run c ch).out ∧
+    ((ch.foldl (FSt.append c) { flags := 0 }).flush c).file = (run c ch).out ∧
+    ((ch.foldl (FSt.append c) { flags := 0 }).flush c).list = [] := by
+  intro c ch
+  have h1 := (keep_in_memory_same_blocks c ch metaWriterKeepInMemory).2.2.1 (by decide)
+  have h0 := (keep_in_memory_same_blocks c ch 0).2.2.2 (by decide)
+  exact ⟨h1.1, h1.2.2.1, h0.1, h0.2.1⟩
 
 end Meta
 
@@ -547,9 +610,6 @@ end Inode
 section Examples
 open Sqfs.DirWriter Sqfs.MetaWriter Sqfs.IdTable
 
-/-- a codec that never shrinks anything -/
-def toyCodec0 : Codec := fun _ => none
-
 /-- two entries in one inode block, then one in another block → two headers (2 + 1), indexed at listing offsets 0 and 30 -/
 example : (dirEndM (fun _ => none) {} [⟨0x10020, 5, 2, [97]⟩, ⟨0x10040, 6, 2, [98]⟩, ⟨0x20000, 7, 2, [99]⟩]).1.map
     (fun r => (r.ents.length, r.index, r.block)) = [(2, 0, 0), (1, 30, 0)] := by
@@ -562,9 +622,6 @@ example : WF toyCodec0 {} := wf_init _
 example : conseqCount 0 [⟨0, 1, 2, [97]⟩, ⟨32, 40000, 2, [98]⟩] = 1 := by decide
 
 example : addEntry [97, 98] 3 0x10020 0o100644 = .ok ⟨0x10020, 3, 2, [97, 98]⟩ := by decide
-
-/-- a codec meeting the contract: "drop the last byte of anything longer than 3 bytes" -/
-def toyCodec : Codec := fun x => if x.length > 3 then some x.dropLast else none
 
 example : toyCodec.Shrinks := by
   intro x c h
